@@ -329,7 +329,7 @@ def gen_config(ck, world, node, depth, inherited_alg, inherited_ctx, root=True):
     elif rng.random() < 0.2:
         c["omit-signing"] = False
     if not omit or rng.random() < 0.5:
-        c["key-name"] = world.keys_of_ctx(ctx).for_alg(alg, rng.randrange(2))
+        c["key-name"] = world.keys_of_ctx(ctx).for_alg(alg, rng.choice([0, 1, 3]))
         kid = rng.choice(KIDS + [rng.randrange(2 ** 32)])
         c["key-id"] = hex(kid) if rng.random() < 0.6 else str(kid)
     if node.presigned and not omit:
